@@ -151,7 +151,7 @@ class Gen:
     def edit_desc(self, desc):
         r = self.rng; d = copy.deepcopy(desc)
         shells = [n for n, c in d["cmds"].items() if c["tool"] == "shell"]
-        kinds = ["tag", "extra", "env", "rewire", "remove", "flag", "signature", "depstyle", "boundary", "addinput", "restore", "argenv"]
+        kinds = ["tag", "extra", "env", "rewire", "remove", "flag", "signature", "depstyle", "boundary", "addinput", "restore", "argenv", "dupout"]
         k = r.choice(kinds)
         if not shells: k = "restore"
         if k == "restore" and getattr(self, "desc0", None) is not None: return copy.deepcopy(self.desc0), "restore"
@@ -176,6 +176,9 @@ class Gen:
             c["_signature"] = (c["_signature"] or "sig") + "%d" % r.randint(0, 2); c["tag"] = c["tag"] + "s"     # always a NEW explicit signature with the new body
         elif k == "depstyle":      # the declared style alone (the body keeps writing the format it wrote before)
             if c["reads"]: c["_depstyle"] = "depinfo" if c["_depstyle"] == "makefile" else "makefile"
+        elif k == "dupout":        # a second command claims the same output: the node cannot be built (an error, not a crash)
+            c2 = copy.deepcopy(c); c2["tag"] = c["tag"] + "d"; c2["reads"] = []; c2["failif"] = ""
+            d["cmds"][n + "d"] = c2; d["order"].append(n + "d")
         elif k == "argenv":        # move the two trailing arguments across the args|env boundary
             if len(c["_extra"]) >= 2 and not c["_env"]: c["_env"] = [c["_extra"][-2:]]; c["_extra"] = c["_extra"][:-2]
         elif k == "boundary":
@@ -191,8 +194,7 @@ class Gen:
         prod = {}
         for n, x in d["cmds"].items():
             for o in x["outs"]:
-                if o in prod: return False
-                prod[o] = n
+                prod.setdefault(o, n)          # (two producers of one node are allowed: that is the error case of ProducedNodeTask)
         g = {n: [prod[i] for i in x["ins"] + x["reads"] if i in prod] for n, x in d["cmds"].items()}
         state = {}
         def dfs(u):
